@@ -313,3 +313,16 @@ def hv(rng, default, kind='any', p=0.12):
         c = abs(float(c)) * rng.choice([1.0, 1.0, 1.0, 0.5, 2.0]) + rng.choice([0.0, 0.0, 0.01, -0.01])
         return c if c > 0 else default
     return float(c) * rng.choice([1.0, 1.0, -1.0])
+
+
+def queued_orders(q):
+    """the Order objects waiting in a broker queue, oldest first where the queue defines an order; tolerant of the container
+    (queue.Queue, PriorityQueue of tuples ending in the order, list, deque)"""
+    items = list(getattr(q, 'queue', q))
+    out = []
+    for it in items:
+        if isinstance(it, tuple):
+            it = next((x for x in reversed(it) if hasattr(x, 'asset') and hasattr(x, 'quantity')), None)
+        if it is not None and hasattr(it, 'asset'):
+            out.append(it)
+    return out
